@@ -104,6 +104,9 @@ def _unwrapped_parse_calls(prog: Program, exc: ExcTable) -> List[str]:
 def _unreachable_after_exhaustive_isinstance(prog: Program, fi: FuncInfo, node: ast.Raise) -> bool:
     """`if isinstance(e, A): return..; if isinstance(e, B): return..; raise AssertionError` with {A, B} = all concrete
     subclasses of the parameter's declared base class."""
+    sem = _unreachable_by_paths(prog, fi, node)
+    if sem is not None:
+        return sem
     body = fi.body
     if not body or body[-1] is not node:
         return False
@@ -134,6 +137,46 @@ def _unreachable_after_exhaustive_isinstance(prog: Program, fi: FuncInfo, node: 
         return False
     subs = {c.name for c in prog.subclasses(ann)}
     return bool(subs) and subs <= tested
+
+
+def _unreachable_by_paths(prog: Program, fi: FuncInfo, node: ast.Raise) -> Optional[bool]:
+    """Path version of the test above: on every simulated path that ends in this raise, the isinstance tests that came
+    out False name every concrete subclass of the declared class of the tested parameter (whatever the chain looks
+    like: if/elif/else, early returns, a dispatch that binds a function first).  None when the paths cannot be had."""
+    from .pathsim import Sim
+
+    try:
+        paths = list(Sim(prog, fi, loop_iters=(0, 1), max_paths=4000).paths())
+    except AnalysisError:
+        return None
+    anns = {a.arg: norm(a.annotation).strip("'\"").split(".")[-1] for a in fi.node.args.args if a.annotation is not None}
+    mine = [p for p in paths if p.terminal == "raise" and getattr(p, "raise_node", None) is node]
+    if not mine:
+        # the simulator does not record the node: fall back to the class and the line
+        mine = [p for p in paths if p.terminal == "raise" and p.exc_cls == "AssertionError" and any(e["kind"] == "raise" and e.get("node") is node for e in p.events)]
+    if not mine:
+        return None
+    for p in mine:
+        failed: Dict[str, Set[str]] = {}
+        for e in p.events:
+            if e["kind"] != "branch":
+                continue
+            t, neg = e["test"], False
+            while isinstance(t, tuple) and t and t[0] == "un" and t[1] == "Not":
+                t, neg = t[2], not neg
+            if isinstance(t, tuple) and t and t[0] == "call" and t[1] == "isinstance" and len(t[2]) == 2 and t[2][0][0] == "param":
+                if (bool(e["taken"]) != neg) is False:
+                    failed.setdefault(t[2][0][1], set()).update(_type_names(t[2][1]))
+        ok_path = False
+        for var, tested in failed.items():
+            ann = anns.get(var)
+            if ann in prog.classes:
+                subs = {c.name for c in prog.subclasses(ann)}
+                if subs and subs <= tested:
+                    ok_path = True
+        if not ok_path:
+            return False
+    return True
 
 
 def _always_leaves(stmts: List[ast.stmt]) -> bool:
@@ -538,8 +581,10 @@ def reader_dispatch(prog: Program, tag: str):
             for a, b in ((v[2], v[3]), (v[3], v[2])):
                 if is_const(b) and isinstance(b[1], str) and isinstance(a, tuple) and a and a[0] == "sub" and a[2] == const("type"):
                     return const((b[1] == tag) == (v[1] == "Eq"))
-        if v[0] == "cmp" and v[1] in ("In", "NotIn") and is_const(v[2]) and isinstance(v[2][1], str):
-            return const(v[1] == "In")
+        if v[0] == "cmp" and v[1] in ("In", "NotIn") and ((is_const(v[2]) and isinstance(v[2][1], str)) or (isinstance(v[3], tuple) and v[3] and v[3][0] in ("iter", "param", "item"))):
+            return const(v[1] == "In")  # the entry has every key it is asked for
+        if v[0] in ("listcomp", "genexp", "setcomp") and any(assume(c) == const(False) for _it, conds in v[2] for c in conds):
+            return const(False)  # "the keys that are missing": none
         if v[0] == "call" and (v[1] == "isinstance" or str(v[1]).endswith("isfile")):
             return const(True)
         return None
@@ -581,6 +626,15 @@ def reader_key_discipline(prog: Program):
                         present.add(t[2][1])
                     elif missing is None:
                         missing = t[2][1]
+                else:
+                    # "some key of the table is missing": [k for k in KEYS if k not in entry] / any(k not in entry ...)
+                    keys = _missing_keys_test(t)
+                    if keys:
+                        some_missing = bool(e["taken"]) != neg
+                        if some_missing:
+                            missing = missing or keys[0]
+                        else:
+                            present.update(keys)
             vals = [e.get(f) for f in ("test", "args", "kws", "recv", "value", "target", "f")]
             for v in vals:
                 for x in walk(v):
@@ -595,8 +649,68 @@ def reader_key_discipline(prog: Program):
     return reads, absent
 
 
+def _missing_keys_test(t) -> List[str]:
+    """The keys whose absence makes the value truthy: a comprehension over a tuple of key names filtered by
+    `k not in X`, or a disjunction of such tests (what any(...) unrolls to)."""
+    from .pathsim import is_const
+
+    if isinstance(t, tuple) and t and t[0] in ("listcomp", "genexp", "setcomp") and len(t[2]) == 1:
+        it, conds = t[2][0]
+        if isinstance(it, tuple) and it and it[0] == "tuple" and all(is_const(x) and isinstance(x[1], str) for x in it[1]):
+            if len(conds) == 1 and isinstance(conds[0], tuple) and conds[0][0] == "cmp" and conds[0][1] == "NotIn":
+                return [x[1] for x in it[1]]
+    if isinstance(t, tuple) and t and t[0] == "boolop" and t[1] == "Or":
+        ks = []
+        for c in t[2]:
+            if isinstance(c, tuple) and c[0] == "cmp" and c[1] == "NotIn" and is_const(c[2]) and isinstance(c[2][1], str):
+                ks.append(c[2][1])
+            else:
+                return []
+        return ks
+    return []
+
+
+def written_entries(prog: Program) -> List[Dict[str, Any]]:
+    """The entries write_contracts_to_file appends to its document, one per returning path of a one-contract run:
+    {key: value} gathered from the dictionary display handed to .append and from the stores entry[key] = value."""
+    from .pathsim import Sim, is_const, walk
+
+    w = prog.func("fileio.write_contracts_to_file")
+    out: List[Dict[str, Any]] = []
+    for p in Sim(prog, w, loop_iters=(1,)).paths():
+        if p.terminal != "return":
+            continue
+        items: Dict[str, Any] = {}
+        for e in p.events:
+            if e["kind"] == "store" and isinstance(e["target"], tuple) and e["target"][0] == "sub" and is_const(e["target"][2]) and isinstance(e["target"][2][1], str):
+                items[e["target"][2][1]] = e["value"]
+            if e["kind"] == "call" and e["callee"] == ".append":
+                for a in e["args"]:
+                    for x in walk(a):
+                        if isinstance(x, tuple) and x and x[0] == "dict":
+                            for k, v in x[1]:
+                                if k is not None and is_const(k) and isinstance(k[1], str):
+                                    items[k[1]] = v
+        if items:
+            out.append(items)
+    return out
+
+
 def written_tags(prog: Program) -> Dict[str, str]:
-    """type tag -> writer method, read off write_contracts_to_file (entry["type"] = TAG ; entry["data"] = c.<writer>())."""
+    """type tag -> writer method: from the simulated writer (entries it appends), else read off the syntax
+    (entry["type"] = TAG ; entry["data"] = c.<writer>())."""
+    from .pathsim import is_const
+
+    try:
+        sem: Dict[str, str] = {}
+        for it in written_entries(prog):
+            t, d = it.get("type"), it.get("data")
+            if t is not None and is_const(t) and isinstance(t[1], str) and isinstance(d, tuple) and d and d[0] == "mcall":
+                sem[t[1]] = d[1]
+        if sem:
+            return sem
+    except AnalysisError:
+        pass
     w = prog.func("fileio.write_contracts_to_file")
     written: Dict[str, str] = {}
 
@@ -778,9 +892,50 @@ def _helper_requires_param(prog: Program, name: str, argpos: int, kwname: Option
     return False
 
 
+def _required_keys_semantic(fi: FuncInfo, prog: Program) -> Optional[Set[str]]:
+    """The keys a validator requires, found by asking it: a key is required when the validator, interpreted on a valid
+    dictionary from which that key was taken away, raises.  Works for whatever way the validator is written (a loop
+    over a table, helpers, dict.get with a sentinel).  None when the interpreter cannot follow the validator."""
+    from .termalg import DictV, ListV, Raised, TermAlg, num
+
+    S = lambda s: ("str", s)  # noqa: E731
+
+    def clause():
+        return DictV({S("constant"): num(1), S("coefficients"): DictV({S("x"): num(2)})})
+
+    def contract():
+        return DictV({S("input_vars"): ListV([S("x")]), S("output_vars"): ListV([S("y")]), S("assumptions"): ListV([clause()]), S("guarantees"): ListV([clause()])})
+
+    if fi.name == "validate_contract_dict":
+        mk, args = contract, lambda d: [d, S("c"), True]
+    elif fi.name == "_check_clause":
+        mk, args = clause, lambda d: [d, S("c")]
+    else:
+        return None
+    try:
+        TermAlg(prog).call(fi, args(mk()))
+    except Exception:
+        return None  # the valid dictionary itself is not accepted / not followed: let the reading of the syntax decide
+    req: Set[str] = set()
+    for k in list(mk().d):
+        d = mk()
+        del d.d[k]
+        try:
+            TermAlg(prog).call(fi, args(d))
+        except Raised:
+            req.add(k[1])
+        except Exception:
+            return None
+    return req
+
+
 def _required_keys(fi: FuncInfo, prog: Optional[Program] = None) -> Set[str]:
     """Keys k for which the function has `if k not in X: raise ...` (also through `for kw in [..]`, and through a
-    newly extracted helper that is handed the key)."""
+    newly extracted helper that is handed the key); asked of the validator itself when the interpreter can follow it."""
+    if prog is not None:
+        sem = _required_keys_semantic(fi, prog)
+        if sem is not None:
+            return sem
     req: Set[str] = set()
     lists: Dict[str, List[str]] = {}
     for node in ast.walk(fi.node):
@@ -831,14 +986,26 @@ def _none_positions(fi: FuncInfo) -> Set[int]:
     out: Set[int] = set()
     if isinstance(fi.node, ast.Lambda):
         return out
+    fl = Flow(fi.node)
+
+    def may_be_none(e: Optional[ast.AST], depth: int = 0) -> bool:
+        if e is None or (isinstance(e, ast.Constant) and e.value is None):
+            return True
+        if isinstance(e, ast.IfExp):
+            return may_be_none(e.body, depth + 1) or may_be_none(e.orelse, depth + 1)
+        if isinstance(e, ast.Name) and depth < 3:
+            # a local that some assignment binds to None (single exit: `optimum = None ... return optimum`)
+            return any(may_be_none(d, depth + 1) for d in fl.defs.get(e.id, []) if isinstance(d, (ast.Constant, ast.IfExp, ast.Name)))
+        return False
+
     for node in ast.walk(fi.node):
         if isinstance(node, ast.Return):
             v = node.value
-            if v is None or (isinstance(v, ast.Constant) and v.value is None):
+            if may_be_none(v):
                 out.add(-1)
             elif isinstance(v, ast.Tuple):
                 for i, e in enumerate(v.elts):
-                    if isinstance(e, ast.Constant) and e.value is None:
+                    if may_be_none(e):
                         out.add(i)
     return out
 
@@ -955,6 +1122,11 @@ def rule_validator_types(ctx: Ctx, rule: str = "validator-types") -> None:
     prog = ctx.prog
     chk = prog.func("serializer._check_clause")
     fd = prog.func("PolyhedralIoContract.from_dict")
+    if ctx.extra.get("validator_faults_followed") is True:
+        # the fault enumeration (rule validator-faults, run before this one) followed the validators on every kind of
+        # ill-typed field: what this reading of the syntax would conclude from the shape of the tests is already decided
+        ctx.ok(rule, chk.key, "_check_clause / validate_contract_dict: kind tests (decided by the enumeration of ill-typed dictionaries)", nontrivial=False)
+        return
     p0 = chk.params[0]
     numeric = ("int", "float", "Number", "Real", "numeric")
 
@@ -1999,6 +2171,7 @@ def rule_validator_faults(ctx: Ctx, rule: str = "validator-faults") -> None:
         try:
             out = run(valid(machine), machine)
         except (AnalysisError, Undecidable_) as ex:
+            ctx.extra["validator_faults_followed"] = False
             ctx.cannot_decide(rule, fi.key, construct, str(ex))
             continue
         (ctx.ok(rule, fi.key, construct) if out == "accepted" else ctx.violation(rule, fi.key, construct, "a valid dictionary gives %s" % out, where=fi.where))
@@ -2047,6 +2220,9 @@ def rule_validator_faults(ctx: Ctx, rule: str = "validator-faults") -> None:
                 accepted.append(label)
             elif not documented(exc, out[6:]):
                 wrong.append("%s: %s" % (label, out))
+        ctx.extra.setdefault("validator_faults_followed", True)
+        if undec:
+            ctx.extra["validator_faults_followed"] = False
         construct = "validate_contract_dict (%s representation): each of the %d single-field faults is refused with a documented error" % (rep, len(faults))
         if accepted or wrong:
             ctx.violation(rule, fi.key, construct, "; ".join((["accepted: %s" % ", ".join(accepted[:4])] if accepted else []) + (["undocumented error: %s" % ", ".join(wrong[:3])] if wrong else [])), where=fi.where)
